@@ -47,6 +47,7 @@ func (f *Frame) builtin(b *ssa.Builtin, c *ssa.CallCommon, pos token.Pos) []Val 
 		f.siteCall(c, pos)
 		return []Val{f.builtinAppend(c, pos)}
 	case "copy":
+		f.siteCall(c, pos)
 		return []Val{f.builtinCopy(c, pos)}
 	case "delete":
 		m := c.Args[0].Type().Underlying().(*types.Map)
